@@ -557,8 +557,9 @@ def _check_pins() -> None:
     h = px.find_class(mod, "WSGIRequestHandler")
     parts = ["## serving.DechunkedInput\n" + px.skeleton(px.find_class(mod, "DechunkedInput")),
              "## serving._chunk_size_re\n" + ast.unparse(px.find_assign(mod, "_chunk_size_re"))]
+    # log_request / log are on the response path: http.server's send_response calls log_request before anything is written
     for name in ("server_version", "make_environ", "run_wsgi", "handle", "connection_dropped", "__getattr__", "address_string",
-                 "port_integer"):
+                 "port_integer", "log_request", "log_error", "log_message", "log"):
         parts.append(f"## serving.WSGIRequestHandler.{name}\n" + px.skeleton(find_method(h, name)))
     own = [n.name for n in h.body if isinstance(n, ast.FunctionDef)]
     parts.append("## serving.WSGIRequestHandler defines\n" + " ".join(own))
@@ -983,7 +984,9 @@ def build_request(rng):
 
 
 STATUSES = ["200 OK", "200 OK", "201 Created", "204 No Content", "304 Not Modified", "404 Not Found", "500 Internal Server Error", "200",
-            "101 Switching Protocols", "199 Custom", "299 Custom Reason", "302 Found", "205 Reset Content", "200  Two  Spaces"]
+            "101 Switching Protocols", "199 Custom", "299 Custom Reason", "302 Found", "205 Reset Content", "200  Two  Spaces",
+            # every status the grammar <digits>[ <reason>] admits must reach the client, also outside 100-599
+            "100 Continue", "599 Edge", "600 Custom", "999 Request Denied", "777", "99 x", "1000 y", "000", "7 seven", "12345 five digits"]
 RESP_HDRS = [("Content-Type", "text/plain"), ("X-R", "1"), ("X-R", "2"), ("Set-Cookie", "a=b"), ("Set-Cookie", "c=d"), ("X-Empty", ""),
              ("Cache-Control", "no-cache"), ("X-Latin", "é")]
 
@@ -1010,7 +1013,7 @@ def gen_script(rng):
         return bytes(rng.choice(BODY_ALPHA) for _ in range(rng.choice([0, 1, 3, 9])))
     kind = rng.choice(["replace-before-send", "replace-before-send", "twice", "twice-empty-first", "piece-before-start",
                        "exc-after-send", "exc-after-send-empty-headers", "lazy-start", "no-pieces"])
-    st = lambda: rng.choice(STATUSES[:8])  # noqa: E731
+    st = lambda: rng.choice(STATUSES[:8] + STATUSES[14:])  # noqa: E731
     if kind == "replace-before-send":
         acts = [("s", st(), hdrs(), rng.random() < 0.3)] + [("s", st(), hdrs(), True) for _ in range(rng.choice([1, 2]))]
         acts += [(rng.choice("wy"), piece()) for _ in range(rng.choice([0, 1, 3]))]
@@ -1537,8 +1540,8 @@ def main(chk: Check) -> None:
         "run_wsgi.write / execute / prologue and make_environ with comparisons and constants generated at the holes)",
         "statement pins: tools/pins/c19_serving.txt (whole serving.DechunkedInput, _chunk_size_re, WSGIRequestHandler.server_version / make_environ / "
         "run_wsgi incl. write, start_response, execute with its drain loop and the 500 fallback / handle / connection_dropped / __getattr__ / "
-        "address_string / port_integer, the list of methods the handler defines, _internal._wsgi_encoding_dance); validated differentially only, "
-        "no pin wanted: log_request / log / log_error / log_message (output only), BaseWSGIServer and make_server (the harness drives the handler "
+        "address_string / port_integer / log_request / log / log_error / log_message (send_response logs before it writes), the methods and class-level statements the handler defines, _internal._wsgi_encoding_dance); validated differentially only, "
+        "no pin wanted: BaseWSGIServer and make_server (the harness drives the handler "
         "with a stand-in server object), http.server / email / urllib.parse / io (CPython, not werkzeug code; http.server's response formats are "
         "read from its source on every run)",
         "extraction ExtrOcamlBasic + tools/conv.ml + coq/C19/driver.ml, OCaml 4.13.1",
